@@ -5,6 +5,7 @@ CONSTANTS
   MaxRank = 3
   Mode = "rejection"
 INVARIANT AcceptedUnderTol
+INVARIANT NothingSurvivesARestart
 INVARIANT TolerancesNeverIncrease
 INVARIANT PosteriorComplete
 CHECK_DEADLOCK FALSE
